@@ -555,6 +555,71 @@ Section LoadHit.
       apply (load_no_miss_gen sched s H5 Hal) with (s2 := s2) (ls2 := ls2); [|exact E].
       intros q _. rewrite Hp. cbn [region]. lia.
     Qed.
+
+    (* ---------------- a miss is justified by a state in which k was not visible ---------------- *)
+
+    Definition vslot (sl : slot) : bool :=
+      match s_tag sl, s_ent sl with
+      | Some _, Some (k', _) => if eqd k k' then true else false
+      | _, _ => false
+      end.
+
+    Lemma haspos_dec s : {exists q, kpos s q} + {forall q, ~ kpos s q}.
+    Proof.
+      set (c := chain_of (tab_at s tab) (home hash idx (tab_at s tab) k)).
+      destruct (existsb vslot c) eqn:E.
+      - left. apply existsb_exists in E. destruct E as [sl [Hin Hv]].
+        destruct (In_nth c sl empty_slot Hin) as [q [Hq Eq]]. exists q. unfold kpos. fold c. rewrite Eq.
+        unfold vslot in Hv. destruct (s_tag sl); [|discriminate]. destruct (s_ent sl) as [[k' v']|]; [|discriminate].
+        destruct (eqd k k') as [->|]; [|discriminate]. split; [exact Hq|]. split; [discriminate | exists v'; reflexivity].
+      - right. intros q [Q1 [Q2 [v Q3]]]. fold c in Q1, Q2, Q3.
+        assert (Hx : existsb vslot c = true); [|rewrite Hx in E; discriminate].
+        apply existsb_exists. exists (nth q c empty_slot). split; [apply nth_In; exact Q1|].
+        unfold vslot. rewrite Q3. destruct (s_tag (nth q c empty_slot)); [|exfalso; apply Q2; reflexivity].
+        destruct (eqd k k); [reflexivity | congruence].
+    Qed.
+
+    Lemma along_or_ever (P : xstate -> Prop) (Pdec : forall s, {P s} + {~ P s}) sched : forall s,
+      along P s sched \/ ever (fun s => ~ P s) s sched.
+    Proof.
+      induction sched as [|u r IH]; intros s; cbn [X_range.along ever].
+      - destruct (Pdec s) as [H|H]; [left; auto | right; left; exact H].
+      - destruct (Pdec s) as [H|H]; [|right; left; exact H].
+        destruct (xstep s u) as [[s' ls]|].
+        + destruct (IH s') as [A|A]; [left; auto | right; right; exact A].
+        + destruct (IH s) as [A|A]; [left; auto | right; right; exact A].
+    Qed.
+
+    Lemma along_and (P Q : xstate -> Prop) sched : forall s, along P s sched -> along Q s sched -> along (fun s => P s /\ Q s) s sched.
+    Proof.
+      induction sched as [|u r IH]; intros s [HP AP] [HQ AQ]; cbn [X_range.along]; (split; [auto|]); [exact I|].
+      cbn [X_range.along] in AP, AQ. destruct (xstep s u) as [[s' ls]|]; apply IH; assumption.
+    Qed.
+
+    Lemma ever_impl (P Q : xstate -> Prop) sched : (forall s, P s -> Q s) -> forall s, ever P s sched -> ever Q s sched.
+    Proof.
+      intros HPQ. induction sched as [|u r IH]; intros s; cbn [ever]; intros [H|H].
+      - left. apply HPQ. exact H.
+      - destruct H.
+      - left. apply HPQ. exact H.
+      - right. destruct (xstep s u) as [[s' ls]|]; apply IH; exact H.
+    Qed.
+
+    (* C04, readers: a lookup that misses is justified by a state of the run in which k was not visible in the table *)
+    Theorem load_miss s sched s2 ls2 : XI5 s -> along inl s sched ->
+      (exists k' lc' tab' h, g_pc s t = PL_Meta k' lc' tab' h 0) ->
+      xstep (fst (xrun s sched)) t = Some (s2, ls2) ->
+      (In (XRes t (XRVal None false)) ls2 \/ exists cx, g_pc s2 t = PW_Table cx) ->
+      ever (fun s' => forall q, ~ kpos s' q) s sched.
+    Proof.
+      intros H5 Hal Hst E Hmiss.
+      destruct (along_or_ever (fun s => exists q, kpos s q)
+                  (fun s => match haspos_dec s with left H => left H | right H => right (fun '(ex_intro _ q Hq) => H q Hq) end) sched s) as [A|A].
+      - exfalso. pose proof (along_and _ _ sched s Hal A) as Hst'.
+        destruct (load_no_miss s sched s2 ls2 H5 Hst' Hst E) as [N1 N2].
+        destruct Hmiss as [H|[cx H]]; [exact (N1 H) | exact (N2 cx H)].
+      - eapply ever_impl; [|exact A]. intros s0 Hn q Hq. apply Hn. exists q. exact Hq.
+    Qed.
   End OneMiss.
 End LoadHit.
 
@@ -588,6 +653,20 @@ Section Final.
   Proof.
     intros [[H1 [H2 H3]] [H4 [H5 H6]]] len0 todo sched0 sched t k lc tab s2 ls2 Hl s.
     apply (load_no_miss eqd hash idx tag nslots seeds grow_needed shrink_policy probe nstripes minlen grow_only H1 H2 H3 H4 H5 H6 t k lc tab s sched s2 ls2).
+    apply (reachable_inv5 eqd hash idx tag nslots seeds grow_needed shrink_policy probe nstripes minlen grow_only H1 H2 H3 H4 H5 H6 len0 todo sched0 Hl).
+  Qed.
+
+  Lemma load_miss_proof :
+    xhyps4 idx nstripes minlen nslots probe -> forall len0 todo sched0 sched t k lc tab s2 ls2, 0 < len0 ->
+    let s := fst (xrun (xinit nslots seeds nstripes len0 todo) sched0) in
+    along (inlookup hash nslots nstripes t k lc tab) s sched ->
+    (exists k' lc' tab' h, g_pc s t = PL_Meta k' lc' tab' h 0) ->
+    xstep (fst (xrun s sched)) t = Some (s2, ls2) ->
+    (In (XRes t (XRVal None false)) ls2 \/ exists cx, g_pc s2 t = PW_Table cx) ->
+    ever (fun s' => forall q, ~ kpos hash idx nslots nstripes k tab s' q) s sched.
+  Proof.
+    intros [[H1 [H2 H3]] [H4 [H5 H6]]] len0 todo sched0 sched t k lc tab s2 ls2 Hl s.
+    apply (load_miss eqd hash idx tag nslots seeds grow_needed shrink_policy probe nstripes minlen grow_only H1 H2 H3 H4 H5 H6 t k lc tab s sched s2 ls2).
     apply (reachable_inv5 eqd hash idx tag nslots seeds grow_needed shrink_policy probe nstripes minlen grow_only H1 H2 H3 H4 H5 H6 len0 todo sched0 Hl).
   Qed.
 
